@@ -261,6 +261,8 @@ func c11Width(t *rapid.T, maxW int) expr.Width {
 		w = []int{127, 128, 255}[rapid.IntRange(0, 2).Draw(t, "wbig")]
 	case 1, 2, 3:
 		w = []int{1, 2, 4, 8, 16}[rapid.IntRange(0, 4).Draw(t, "wpow")]
+	case 4:
+		w = rapid.IntRange(1, 255).Draw(t, "wAny")
 	default:
 		w = rapid.IntRange(1, 64).Draw(t, "w")
 	}
@@ -271,7 +273,7 @@ func c11Width(t *rapid.T, maxW int) expr.Width {
 }
 
 func TestC11(t *testing.T) {
-	col := ev.New("C11", "rapid: each of 24 gadget constructors of pkg/expr/exprtools x width in 1..64 + {127,128,255} "+
+	col := ev.New("C11", "rapid: each of 24 gadget constructors of pkg/expr/exprtools x width in 1..64 + {127,128,255} + a tenth anywhere in 1..255 "+
 		"(documented limits respected: SignedMul w<=127, MaskBits cnt<=8w, SignExtend bit<8w) x operands that are "+
 		"boundary-biased constants (70%) or symbolic expressions with register/memory loads (30%), of widths equal to "+
 		"or different from w (equal for the gadgets that take signs from operand widths); the gadget tree is evaluated "+
